@@ -16,9 +16,11 @@ Theorem C16_closure :
 Proof. exact kill_list_exact. Qed.
 Print Assumptions C16_closure.
 
-(** The list is complete before the first kill, and the children are followed by their descendants. *)
-Theorem C16_snapshot_before_kill : pids_before_kill = true /\ collect_recursive = true.
-Proof. split; reflexivity. Qed.
+(** The list is complete before the first kill, and the children are followed by their descendants; the process is started inside
+    the try block whose handler records the interrupt (no window between the fork and the handling; before the repair 637d7d8
+    an interrupt while Thread.start() was still waiting left run() without killing anything). *)
+Theorem C16_snapshot_before_kill : pids_before_kill = true /\ collect_recursive = true /\ start_inside_try = true.
+Proof. repeat split; reflexivity. Qed.
 Print Assumptions C16_snapshot_before_kill.
 
 (** The decision, whatever Thread.is_alive() reports after an interrupted join: the tree is killed iff a
